@@ -2543,11 +2543,17 @@ func (p *wat2X64Worker) buildFunc_ins(
 		sp1 := p.fnWasmR0Base - 8*stk.Pop(token.I32) - 8
 		ret0 := p.fnWasmR0Base - 8*stk.Push(token.I32) - 8
 
+		// x rem_s -1 is 0 for every x; idiv faults for x = MIN
+		labelDone := ".Wa.L.rem_s.done." + p.genNextId()
 		fmt.Fprintf(w, "    # i32.rem_s\n")
 		fmt.Fprintf(w, "    push rdx\n")
+		fmt.Fprintf(w, "    xor  edx, edx\n")
+		fmt.Fprintf(w, "    cmp  dword ptr [rbp%+d], -1\n", sp0)
+		fmt.Fprintf(w, "    je   %s\n", labelDone)
 		fmt.Fprintf(w, "    mov  eax, dword ptr [rbp%+d]\n", sp1)
 		fmt.Fprintf(w, "    cdq  # edx = copysign(eax)\n")
 		fmt.Fprintf(w, "    idiv dword ptr [rbp%+d]\n", sp0)
+		fmt.Fprintf(w, "%s:\n", labelDone)
 		fmt.Fprintf(w, "    mov  dword ptr [rbp%+d], edx\n", ret0)
 		fmt.Fprintf(w, "    pop  rdx\n")
 		fmt.Fprintln(w)
@@ -2765,11 +2771,17 @@ func (p *wat2X64Worker) buildFunc_ins(
 		sp1 := p.fnWasmR0Base - 8*stk.Pop(token.I64) - 8
 		ret0 := p.fnWasmR0Base - 8*stk.Push(token.I64) - 8
 
+		// x rem_s -1 is 0 for every x; idiv faults for x = MIN
+		labelDone := ".Wa.L.rem_s.done." + p.genNextId()
 		fmt.Fprintf(w, "    # i64.rem_s\n")
 		fmt.Fprintf(w, "    push rdx\n")
+		fmt.Fprintf(w, "    xor  edx, edx\n")
+		fmt.Fprintf(w, "    cmp  qword ptr [rbp%+d], -1\n", sp0)
+		fmt.Fprintf(w, "    je   %s\n", labelDone)
 		fmt.Fprintf(w, "    mov  rax, qword ptr [rbp%+d]\n", sp1)
 		fmt.Fprintf(w, "    cqo  # rdx = copysign(rax)\n")
 		fmt.Fprintf(w, "    idiv qword ptr [rbp%+d]\n", sp0)
+		fmt.Fprintf(w, "%s:\n", labelDone)
 		fmt.Fprintf(w, "    mov  qword ptr [rbp%+d], rdx\n", ret0)
 		fmt.Fprintf(w, "    pop  rdx\n")
 		fmt.Fprintln(w)
